@@ -43,13 +43,16 @@ type item struct {
 // bufSpec is one buffer: kind B (validated byte slice), E (error buffer),
 // S (NewCASBufferFromByteSlice), C (CAS over scripted ChunkReader), R (CAS
 // over scripted io.ReadCloser), K / V (one half of CloneStream() of a C buffer; the other half is
-// discarded / read to the end by a second goroutine); F is only valid as a handler response
+// discarded / read to the end by a second goroutine), A (validated ReaderAt buffer whose storage
+// continues before and after the object); F is only valid as a handler response
 // (the handler returns error k).
 type bufSpec struct {
 	kind  byte
 	k     int
 	data  []byte
 	items []item
+	// kind A: NewValidatedBufferFromReaderAt over storage holding pre, data, suf back to back
+	suf, pre []byte
 	// kind W: WithErrorHandler(inner, a handler of its own answering with hin) - a stacked backend
 	inner *bufSpec
 	hin   []bufSpec
@@ -98,6 +101,8 @@ func (b bufSpec) String() string {
 		return fmt.Sprintf("%c:%s", b.kind, hx.Hex(b.data))
 	case 'E', 'F':
 		return fmt.Sprintf("%c:%d", b.kind, b.k)
+	case 'A':
+		return fmt.Sprintf("A:%s/%s/%s", hx.Hex(b.data), hx.Hex(b.suf), hx.Hex(b.pre))
 	case 'W':
 		ws := []string{b.inner.String()}
 		for _, r := range b.hin {
@@ -181,6 +186,16 @@ func parseBuf(w string) (bufSpec, bool) {
 		k, err := strconv.Atoi(p[1])
 		b.k = k
 		return b, err == nil
+	case 'A':
+		q := strings.Split(p[1], "/")
+		if len(q) != 3 {
+			return b, false
+		}
+		var ok1, ok2, ok3 bool
+		b.data, ok1 = unhex(q[0])
+		b.suf, ok2 = unhex(q[1])
+		b.pre, ok3 = unhex(q[2])
+		return b, ok1 && ok2 && ok3
 	case 'C', 'R', 'K', 'V':
 		if p[1] == "_" {
 			return b, true
@@ -324,6 +339,15 @@ func (s *readSrc) Read(p []byte) (int, error) {
 
 func (s *readSrc) Close() error { s.e.closes++; return nil }
 
+// readAtSrc is the storage region a validated ReaderAt buffer reads from: it starts at the object
+// and continues with whatever is stored after it.
+type readAtSrc struct {
+	*io.SectionReader
+	e *env
+}
+
+func (s *readAtSrc) Close() error { s.e.mu.Lock(); s.e.closes++; s.e.mu.Unlock(); return nil }
+
 func cloneItems(in []item) []item {
 	out := make([]item, len(in))
 	for i, it := range in {
@@ -347,6 +371,11 @@ func (e *env) build(b bufSpec) buffer.Buffer {
 	case 'R':
 		e.opens++
 		return buffer.NewCASBufferFromReader(e.dig, &readSrc{e: e, items: cloneItems(b.items)}, src)
+	case 'A':
+		backing := append(append(append([]byte{}, b.pre...), b.data...), b.suf...)
+		return buffer.NewValidatedBufferFromReaderAt(
+			&readAtSrc{e: e, SectionReader: io.NewSectionReader(bytes.NewReader(backing), int64(len(b.pre)), int64(len(b.data)+len(b.suf)))},
+			int64(len(b.data)))
 	case 'K', 'V':
 		e.opens++
 		b1, b2 := buffer.NewCASBufferFromChunkReader(e.dig, &chunkSrc{e: e, items: cloneItems(b.items)}, src).CloneStream()
@@ -675,7 +704,7 @@ func (c caseSpec) trusted() bool {
 		return false
 	}
 	for _, b := range c.allBufs() {
-		if b.kind == 'B' && !bytes.Equal(b.data, c.d) {
+		if (b.kind == 'B' || b.kind == 'A') && !bytes.Equal(b.data, c.d) {
 			return false
 		}
 	}
@@ -861,6 +890,11 @@ func oracle(c caseSpec, o obs) (string, string) {
 	opKind := strings.SplitN(c.op, ":", 2)[0]
 	consuming := opKind != "discard" && opKind != "size"
 	if strings.HasPrefix(opKind, "x") {
+		if c.hasKind('A') {
+			// a validated ReaderAt buffer passes ReadAt to its ReaderAt (io.SectionReader answers a
+			// negative offset with io.EOF): nothing C16 can say about it
+			return "", ""
+		}
 		if o.finalErr != nil && o.finalErr.Error() == "negative offset accepted" {
 			return "negative offset was not rejected", c.op
 		}
@@ -897,7 +931,13 @@ func oracle(c caseSpec, o obs) (string, string) {
 		}
 	}
 	// exactly once, in order; validated across the parts
-	if c.trusted() && consuming {
+	looseReadAt := false // ReadAt of a validated ReaderAt buffer is not bounded by the object's size
+	if opKind == "readat" {
+		for _, b := range c.allBufs() {
+			looseReadAt = looseReadAt || (b.kind == 'A' && len(b.suf) > 0)
+		}
+	}
+	if c.trusted() && consuming && !looseReadAt {
 		want := c.d
 		if o.off <= len(want) {
 			want = want[o.off:]
@@ -1031,6 +1071,7 @@ func exhaustive(L int, full bool, emit func(c caseSpec)) {
 			}
 		}
 	}
+	bases = append(bases, bufSpec{kind: 'A', data: d, suf: bytes.Repeat([]byte{0xee}, L+2), pre: []byte{0xdd}}, bufSpec{kind: 'A', data: d})
 	bases = append(bases, bufSpec{kind: 'E', k: 1}, bufSpec{kind: 'B', data: d}, bufSpec{kind: 'S', data: d},
 		bufSpec{kind: 'S', data: d[:L/2]}, bufSpec{kind: 'C', items: []item{{data: d}, {data: []byte{}}, {fail: true, k: 1}}},
 		bufSpec{kind: 'C', items: []item{{data: []byte{}}, {data: d}, {data: []byte{9}}}})
@@ -1072,6 +1113,10 @@ func exhaustive(L int, full bool, emit func(c caseSpec)) {
 			}
 		}
 	}
+	// validated ReaderAt buffers whose storage continues before and after the object
+	other := bytes.Repeat([]byte{0xee}, L+2)
+	firsts = append(firsts, []bufSpec{{kind: 'A', data: d, suf: other, pre: []byte{0xdd}}}, []bufSpec{{kind: 'A', data: d, suf: other[:1]}},
+		[]bufSpec{{kind: 'A', data: d}})
 	firsts = append(firsts, []bufSpec{{kind: 'B', data: d}}, []bufSpec{{kind: 'S', data: d}}, []bufSpec{{kind: 'F', k: 11}}, []bufSpec{})
 	for _, s := range seconds {
 		firsts = append(firsts, append([]bufSpec{{kind: 'E', k: 12}}, s...))
@@ -1230,6 +1275,8 @@ func randomCase(r *hx.Rand) caseSpec {
 			return bufSpec{kind: 'B', data: d}
 		case x < 4:
 			return bufSpec{kind: 'S', data: data}
+		case x < 6:
+			return bufSpec{kind: 'A', data: d, suf: r.Bytes(r.PickInt(0, 1, L, L+3)), pre: r.Bytes(r.PickInt(0, 0, 2))}
 		}
 		kind := byte('C')
 		switch y := r.Intn(16); {
@@ -1316,6 +1363,17 @@ func variants(b bufSpec) []bufSpec {
 				nb.hin[i] = v
 				res = append(res, nb)
 			}
+		}
+	case 'A':
+		if len(b.suf) > 0 {
+			nb := b
+			nb.suf = nil
+			res = append(res, nb)
+		}
+		if len(b.pre) > 0 {
+			nb := b
+			nb.pre = nil
+			res = append(res, nb)
 		}
 	case 'C', 'R', 'K', 'V':
 		if b.kind == 'K' || b.kind == 'V' {
